@@ -34,7 +34,8 @@ func New(s string, fromBit, toBit int32) []byte {
 	}
 
 	fromByte := fromBit >> 3
-	toByte := (toBit + 7) >> 3
+	// computed in int64: toBit+7 overflows int32 for toBit > MaxInt32-7
+	toByte := int32((int64(toBit) + 7) >> 3)
 
 	l := toByte - fromByte
 
